@@ -383,7 +383,7 @@ func init() {
 //           itself whenever the strategy in force when it was issued is MASTER
 // ---------------------------------------------------------------------------
 
-var c14sOps = []string{"strategy=MASTER", "strategy=REPLICA", "strategy=BOTH", "reads", "write", "periodic-refresh"}
+var c14sOps = []string{"strategy=MASTER", "strategy=REPLICA", "strategy=BOTH", "reads", "write", "periodic-refresh", "clusterdown-answers"}
 
 type c14sCase struct {
 	Init int   `json:"init"`
@@ -449,6 +449,18 @@ func c14strategyBody(cs c14sCase) func() {
 				sched.AdvanceTime(int64(slotsRefFreq) + 1)
 				sched.WaitQuiescent()
 				s.RefreshRound()
+			case 6:
+				// the owning masters answer CLUSTERDOWN to a write and to a read (they lost their majority): the
+				// commands must not be tried on any other node because of that
+				bad := []byte("-CLUSTERDOWN The cluster is down\r\n")
+				for _, m := range cl.Masters() {
+					m.BadReplies = map[string][]byte{"set": bad, "get": bad}
+				}
+				issue([][]string{{"SET", keys[0], "v"}, {"GET", keys[0]}, {"SET", keys[1], "w"}})
+				for _, m := range cl.Masters() {
+					m.BadReplies = nil
+				}
+				s.RefreshRound()
 			}
 		}
 		sched.SetOutcome("ok")
@@ -465,7 +477,7 @@ func c14strategy(env sched.Env) *sched.Report {
 	n := 0
 	var rec func(init int, ops []int)
 	rec = func(init int, ops []int) {
-		if len(ops) > 0 && ops[len(ops)-1] == 3 { // histories ending in reads
+		if len(ops) > 0 && (ops[len(ops)-1] == 3 || ops[len(ops)-1] == 6) { // histories ending in reads or in CLUSTERDOWN answers
 			n++
 			if n%env.NShards == env.Shard {
 				cs := c14sCase{init, append([]int{}, ops...)}
